@@ -10,6 +10,7 @@ ENV = dict(os.environ, GOFLAGS='-mod=mod', GOPROXY='off', GOSUMDB='off', GOTOOLC
 REPO = '/repo'
 OUT = '/verif/selftest/auto'
 PROPS = ['C%02d' % i for i in range(1, 21)]
+ORDER = ['C01', 'C03', 'C13', 'C16', 'C14', 'C05', 'C08', 'C11', 'C17', 'C18', 'C15', 'C02', 'C07', 'C12', 'C19', 'C20', 'C06', 'C09', 'C10', 'C04']
 
 def sources():
     out = []
@@ -91,18 +92,18 @@ def work(args):
     if rc != 0:
         res['status'] = 'nocompile'
     else:
-        rc, out = run(['go', 'vet', './...'], S, 180)
-        rc, out = run(['go', 'test', '-vet=off', '-count=1', '-timeout', '120s', './...'], S, 400)
-        if rc != 0:
-            res['status'] = 'killed-by-tests'
-        else:
-            flagged = []
-            for p in PROPS:
-                rc, out = run(['/verif/bin/sxv', 'check', '-repo', S, '-p', p, '-out', S + '/.sxvout'], '/verif', 400)
-                if rc != 0:
-                    flagged.append('%s(%d)' % (p, rc))
-            res['status'] = 'flagged' if flagged else 'SURVIVED'
+        flagged = []
+        for p in ORDER:
+            rc, out = run(['/verif/bin/sxv', 'check', '-repo', S, '-p', p, '-out', S + '/.sxvout'], '/verif', 400)
+            if rc != 0:
+                flagged.append('%s(%d)' % (p, rc))
+                break  # one alarm is enough for this analysis
+        if flagged:
+            res['status'] = 'flagged'
             res['flagged'] = flagged
+        else:
+            rc, out = run(['go', 'test', '-vet=off', '-count=1', '-p', '4', '-timeout', '120s', './...'], S, 400)
+            res['status'] = 'SURVIVED' if rc == 0 else 'killed-by-tests-only'
     shutil.rmtree(S, ignore_errors=True)
     return res
 
